@@ -13,6 +13,7 @@ use crate::util::*;
 
 pub struct Rec {
     pub env: BDDEnv<usize>,
+    pub env2: BDDEnv<usize>,
     pub nv: usize,
     pub map: Vec<usize>,
     pub inv: HashMap<usize, usize>,
@@ -20,13 +21,20 @@ pub struct Rec {
     pub records: u64,
     pub panics: u64,
     pub kinds: HashMap<String, u64>,
+    /// which operands of the next call live in the second environment ("a", "b", "bc"); copied into the record for --replay
+    pub foreign: Option<&'static str>,
+    /// screening (mode "history"): only every `screen`-th record and every record the harness's own truth-table
+    /// oracle finds suspicious is written for TLC; `seen` counts all calls
+    pub screen: Option<u64>,
+    pub seen: u64,
+    pub flagged: u64,
 }
 
 impl Rec {
     pub fn new(nv: usize, r: &mut StdRng, out: Box<dyn Write>) -> Self {
         let map = injection(nv + 2, r);
         let inv = inverse(&map);
-        Self { env: BDDEnv::new(), nv, map, inv, out, records: 0, panics: 0, kinds: HashMap::new() }
+        Self { env: BDDEnv::new(), env2: BDDEnv::new(), nv, map, inv, out, records: 0, panics: 0, kinds: HashMap::new(), foreign: None, screen: None, seen: 0, flagged: 0 }
     }
 
     pub fn j(&self, n: &Node) -> Value {
@@ -34,6 +42,24 @@ impl Rec {
     }
 
     pub fn emit(&mut self, v: Value) {
+        let mut v = v;
+        if let Some(f) = self.foreign {
+            if v["k"] == "panic" {
+                v["call"]["foreign"] = json!(f);
+            } else {
+                v["foreign"] = json!(f);
+            }
+        }
+        self.seen += 1;
+        if let Some(period) = self.screen {
+            let sus = suspicious(&v, self.nv);
+            if sus {
+                self.flagged += 1;
+            }
+            if !sus && self.seen % period != 0 {
+                return;
+            }
+        }
         let k = v["k"].as_str().unwrap_or("?").to_string();
         *self.kinds.entry(k).or_insert(0) += 1;
         self.records += 1;
@@ -70,6 +96,16 @@ impl Rec {
         let lo = self.from_table(&tt[..half], v + 1);
         let hi = self.from_table(&tt[half..], v + 1);
         self.env.mk_choice(hi, self.map[v], lo)
+    }
+
+    pub fn foreign_from_table(&self, tt: &[bool], v: usize) -> Node {
+        if v > self.nv {
+            return self.env2.mk_const(tt[0]);
+        }
+        let half = tt.len() / 2;
+        let lo = self.foreign_from_table(&tt[..half], v + 1);
+        let hi = self.foreign_from_table(&tt[half..], v + 1);
+        self.env2.mk_choice(hi, self.map[v], lo)
     }
 
     pub fn uniform_node(&self, r: &mut StdRng) -> Node {
@@ -252,6 +288,150 @@ impl Rec {
     }
 }
 
+// ---------------------------------------------------------------------------------------------------
+// A cheap truth-table oracle (u128, at most 7 variables) used ONLY to decide which records of a long history are
+// worth TLC's time; Trace_Bdd remains the judge of every record that is written.
+
+fn var_mask(v: usize, nv: usize) -> u128 {
+    let mut m = 0u128;
+    for j in 0..(1usize << nv) {
+        if (j >> (nv - v)) & 1 == 1 {
+            m |= 1u128 << j;
+        }
+    }
+    m
+}
+
+fn full(nv: usize) -> u128 {
+    if nv == 7 { u128::MAX } else { (1u128 << (1usize << nv)) - 1 }
+}
+
+fn tt_of(n: &Value, nv: usize) -> Option<u128> {
+    let a = n.as_array()?;
+    if a.len() == 1 {
+        return Some(if a[0].as_i64()? == 1 { full(nv) } else { 0 });
+    }
+    let v = a[0].as_u64()? as usize;
+    if v < 1 || v > nv {
+        return None;
+    }
+    let m = var_mask(v, nv);
+    Some((m & tt_of(&a[1], nv)?) | (!m & full(nv) & tt_of(&a[2], nv)?))
+}
+
+fn wf_json(n: &Value, above: u64) -> bool {
+    match n.as_array() {
+        Some(a) if a.len() == 1 => true,
+        Some(a) if a.len() == 3 => {
+            let v = a[0].as_u64().unwrap_or(0);
+            v > above && a[1] != a[2] && wf_json(&a[1], v) && wf_json(&a[2], v)
+        }
+        _ => false,
+    }
+}
+
+fn mentions_json(n: &Value, acc: &mut Vec<u64>) {
+    if let Some(a) = n.as_array() {
+        if a.len() == 3 {
+            acc.push(a[0].as_u64().unwrap_or(0));
+            mentions_json(&a[1], acc);
+            mentions_json(&a[2], acc);
+        }
+    }
+}
+
+fn depends(t: u128, v: usize, nv: usize) -> bool {
+    let m = var_mask(v, nv);
+    let sh = 1usize << (nv - v);
+    ((t & m) >> sh) != (t & !m & full(nv))
+}
+
+fn is_cube_json(n: &Value) -> bool {
+    match n.as_array() {
+        Some(a) if a.len() == 1 => true,
+        Some(a) if a.len() == 3 => {
+            let f = json!([0]);
+            (a[1] == f && is_cube_json(&a[2])) || (a[2] == f && is_cube_json(&a[1]))
+        }
+        _ => false,
+    }
+}
+
+/// true = worth validating (the oracle disagrees or does not understand the record)
+fn suspicious(v: &Value, nv: usize) -> bool {
+    if nv > 7 {
+        return true;
+    }
+    let f = full(nv);
+    let t = |x: &Value| tt_of(x, nv);
+    let ok: Option<bool> = (|| {
+        Some(match v["k"].as_str()? {
+            "bin" => {
+                let (a, b, r) = (t(&v["a"])?, t(&v["b"])?, t(&v["r"])?);
+                let e = match v["op"].as_str()? {
+                    "and" => a & b,
+                    "or" => a | b,
+                    "xor" => a ^ b,
+                    "nor" => !(a | b) & f,
+                    "nand" => !(a & b) & f,
+                    "implies" => (!a | b) & f,
+                    "impliesinv" => (!b | a) & f,
+                    _ => !(a ^ b) & f,
+                };
+                r == e && wf_json(&v["r"], 0)
+            }
+            "not" => t(&v["r"])? == !t(&v["a"])? & f && wf_json(&v["r"], 0),
+            "ite" => {
+                let (a, b, c, r) = (t(&v["a"])?, t(&v["b"])?, t(&v["c"])?, t(&v["r"])?);
+                r == ((a & b) | (!a & c)) & f && wf_json(&v["r"], 0)
+            }
+            k @ ("exists" | "all") => {
+                let mut cur = t(&v["f"])?;
+                for x in v["vs"].as_array()? {
+                    let x = x.as_u64()? as usize;
+                    if x < 1 || x > nv {
+                        continue;
+                    }
+                    let m = var_mask(x, nv);
+                    let sh = 1usize << (nv - x);
+                    let hi = (cur & m) >> sh;
+                    let lo = cur & !m & f;
+                    let c = if k == "exists" { hi | lo } else { hi & lo };
+                    cur = (c | (c << sh)) & f;
+                }
+                t(&v["r"])? == cur && wf_json(&v["r"], 0)
+            }
+            "model" => {
+                let (ff, m) = (t(&v["f"])?, t(&v["m"])?);
+                let mut ms = vec![];
+                mentions_json(&v["m"], &mut ms);
+                (m == 0) == (ff == 0) && m & !ff == 0 && is_cube_json(&v["m"]) && wf_json(&v["m"], 0)
+                    && ms.iter().all(|x| depends(ff, *x as usize, nv))
+                    && v["infer"].as_array()?.iter().all(|e| {
+                        let src = if e[0] == "m" { m } else { ff };
+                        let x = e[1].as_u64().unwrap_or(1) as usize;
+                        let forced = src & !var_mask(x, nv) == 0;
+                        (e[2] == true && e[3] == true) == forced
+                    })
+            }
+            "retain" => {
+                let (ff, r) = (t(&v["f"])?, t(&v["r"])?);
+                let (mut ms, mut fs) = (vec![], vec![]);
+                mentions_json(&v["r"], &mut ms);
+                mentions_json(&v["f"], &mut fs);
+                let dir = match v["flt"].as_str()? {
+                    "True" => ff & !r == 0,
+                    "False" => r & !ff == 0,
+                    _ => v["r"] == v["f"],
+                };
+                dir && wf_json(&v["r"], 0) && ms.iter().all(|x| fs.contains(x))
+            }
+            _ => false,
+        })
+    })();
+    ok != Some(true)
+}
+
 const BINOPS: [&str; 8] = ["and", "or", "xor", "nor", "nand", "implies", "impliesinv", "iff"];
 
 /// record-bdd <out.ndjson> <nv> <mode> <count> <kinds,comma-separated>
@@ -280,6 +460,89 @@ pub fn run(args: &[String]) -> Value {
                 }
             }
         }
+    } else if mode == "history" {
+        // ONE environment, a bounded pool of live handles (results replace random slots, so old diagrams are
+        // dropped while the node table keeps growing), half of the operands are new random tables
+        rec.screen = Some(std::env::var("VERIF_SCREEN").ok().and_then(|x| x.parse().ok()).unwrap_or(50));
+        let mut pool: Vec<Node> = (0..8).map(|_| rec.uniform_node(&mut r)).collect();
+        let cap = 48;
+        let only_queries = kinds.iter().all(|k| *k == "model" || *k == "retain");
+        let mut max_table = 0usize;
+        for step in 0..count {
+            let k = kinds[r.gen_range(0..kinds.len())];
+            let mut operand = |rec: &Rec, r: &mut StdRng| -> Node {
+                // kinds that feed nothing back into the pool (model, retain) get new functions almost every time
+                match r.gen_range(0..10) {
+                    0 => Rc::clone(&pool[r.gen_range(0..pool.len())]),
+                    1..=4 if !only_queries => Rc::clone(&pool[r.gen_range(0..pool.len())]),
+                    1..=7 => rec.uniform_node(r),
+                    _ => rec.random_node(r),
+                }
+            };
+            let f = operand(&rec, &mut r);
+            distinct.insert(f.get_hash());
+            let keep: Option<Node> = match k {
+                "model" => {
+                    rec.rec_model(&f);
+                    None
+                }
+                "retain" => {
+                    rec.rec_retain(&f);
+                    None
+                }
+                "not" => {
+                    rec.rec_not(&f);
+                    guarded(|| rec.env.not(Rc::clone(&f))).ok()
+                }
+                "bin" => {
+                    let g = operand(&rec, &mut r);
+                    let op = BINOPS[r.gen_range(0..8)];
+                    rec.rec_bin(op, &f, &g);
+                    guarded(|| match op {
+                        "and" => rec.env.and(Rc::clone(&f), Rc::clone(&g)),
+                        "or" => rec.env.or(Rc::clone(&f), Rc::clone(&g)),
+                        "xor" => rec.env.xor(Rc::clone(&f), Rc::clone(&g)),
+                        "nor" => rec.env.nor(Rc::clone(&f), Rc::clone(&g)),
+                        "nand" => rec.env.nand(Rc::clone(&f), Rc::clone(&g)),
+                        "implies" => rec.env.implies(Rc::clone(&f), Rc::clone(&g)),
+                        "impliesinv" => rec.env.implies(Rc::clone(&g), Rc::clone(&f)),
+                        _ => rec.env.eq(Rc::clone(&f), Rc::clone(&g)),
+                    })
+                    .ok()
+                }
+                "ite" => {
+                    let g = operand(&rec, &mut r);
+                    let h = operand(&rec, &mut r);
+                    rec.rec_ite(&f, &g, &h);
+                    guarded(|| rec.env.ite(Rc::clone(&f), Rc::clone(&g), Rc::clone(&h))).ok()
+                }
+                "quant" => {
+                    let len = r.gen_range(0..=3);
+                    let vs: Vec<usize> = (0..len).map(|_| r.gen_range(1..=nv)).collect();
+                    let ex = r.gen_bool(0.5);
+                    rec.rec_quant(if ex { "exists" } else { "all" }, &vs, &f);
+                    let syms: Vec<usize> = vs.iter().map(|v| rec.map[*v]).collect();
+                    guarded(|| if ex { rec.env.exists(syms, Rc::clone(&f)) } else { rec.env.all(syms, Rc::clone(&f)) }).ok()
+                }
+                _ => panic!("harness: kind {} not supported in history mode", k),
+            };
+            if let Some(n) = keep {
+                if pool.len() < cap {
+                    pool.push(n);
+                } else {
+                    let i = r.gen_range(0..cap);
+                    pool[i] = n;
+                }
+            }
+            if step % 64 == 0 {
+                max_table = max_table.max(rec.env.size());
+            }
+        }
+        max_table = max_table.max(rec.env.size());
+        rec.out.flush().ok();
+        return json!({"summary": {"records": rec.records, "panics": rec.panics, "kinds": rec.kinds, "nv": nv, "calls": rec.seen,
+                                   "flagged_by_screen": rec.flagged, "max_table_size": max_table,
+                                   "distinct_functions": distinct.len(), "symbols": rec.map[1..].to_vec()}});
     } else {
         // mode "uniform": operands are uniformly random truth tables (every function equally likely)
         let uniform = mode == "uniform";
@@ -294,6 +557,25 @@ pub fn run(args: &[String]) -> Value {
                     "bin" => {
                         let g = if uniform { rec.uniform_node(&mut r) } else { rec.random_node(&mut r) };
                         rec.rec_bin(BINOPS[r.gen_range(0..8)], &f, &g)
+                    }
+                    "xbin" => {
+                        // the second operand comes from ANOTHER environment (as BDDSet::new sets or a {definition} do)
+                        let g = { let tt: Vec<bool> = (0..(1usize << nv)).map(|_| r.gen_bool(0.5)).collect(); rec.foreign_from_table(&tt, 1) };
+                        if r.gen_bool(0.5) {
+                            rec.foreign = Some("b");
+                            rec.rec_bin(BINOPS[r.gen_range(0..8)], &f, &g)
+                        } else {
+                            rec.foreign = Some("a");
+                            rec.rec_bin(BINOPS[r.gen_range(0..8)], &g, &f)
+                        }
+                        rec.foreign = None;
+                    }
+                    "xite" => {
+                        let g = { let tt: Vec<bool> = (0..(1usize << nv)).map(|_| r.gen_bool(0.5)).collect(); rec.foreign_from_table(&tt, 1) };
+                        let h = { let tt: Vec<bool> = (0..(1usize << nv)).map(|_| r.gen_bool(0.5)).collect(); rec.foreign_from_table(&tt, 1) };
+                        rec.foreign = Some("bc");
+                        rec.rec_ite(&f, &g, &h);
+                        rec.foreign = None;
                     }
                     "ite" => {
                         let g = rec.random_node(&mut r);
@@ -320,21 +602,35 @@ pub fn run(args: &[String]) -> Value {
                         rec.rec_cc(["aln", "amn", "exn"][r.gen_range(0..3)], &bs, n)
                     }
                     "ccl" => {
-                        // long lists: the recursion of cmp_count is exponential in the list length, 8 is still cheap
+                        // long lists: the recursion of cmp_count is exponential in the list length, 12 is still affordable
                         if r.gen_bool(0.6) {
-                            let len = r.gen_range(4..=8);
-                            let mut bs: Vec<Node> = (0..len).map(|_| rec.random_node(&mut r)).collect();
+                            let len = if r.gen_bool(0.3) { r.gen_range(9..=12) } else { r.gen_range(4..=8) };
+                            // half of the lists repeat one to three operands (all true / all false together is then
+                            // reachable, the rows where out-of-range bounds matter)
+                            let mut bs: Vec<Node> = if r.gen_bool(0.5) {
+                                let pool: Vec<Node> = (0..r.gen_range(1..=3)).map(|_| rec.random_node(&mut r)).collect();
+                                (0..len).map(|_| Rc::clone(&pool[r.gen_range(0..pool.len())])).collect()
+                            } else {
+                                (0..len).map(|_| rec.random_node(&mut r)).collect()
+                            };
                             if r.gen_bool(0.4) {
                                 let i = r.gen_range(0..len);
                                 let j = r.gen_range(0..len);
                                 bs[i] = Rc::clone(&bs[j]);
                             }
-                            let n: i64 = r.gen_range(-1..=len as i64 + 1);
+                            let n: i64 = match r.gen_range(0..4) {
+                                0 => -1,
+                                1 => len as i64 + 1,
+                                _ => r.gen_range(0..=len as i64),
+                            };
                             rec.rec_cc(["aln", "amn", "exn"][r.gen_range(0..3)], &bs, n)
                         } else {
-                            let (lp, lq) = (r.gen_range(2..=5), r.gen_range(2..=5));
-                            let p: Vec<Node> = (0..lp).map(|_| rec.random_node(&mut r)).collect();
-                            let q: Vec<Node> = (0..lq).map(|_| rec.random_node(&mut r)).collect();
+                            let (lp, lq) = if r.gen_bool(0.25) { (r.gen_range(1..=3), r.gen_range(9..=10)) } else { (r.gen_range(2..=5), r.gen_range(2..=5)) };
+                            let pool: Vec<Node> = (0..r.gen_range(1..=3)).map(|_| rec.random_node(&mut r)).collect();
+                            let pooled = r.gen_bool(0.5);
+                            let mut pick = |r: &mut StdRng| if pooled { Rc::clone(&pool[r.gen_range(0..pool.len())]) } else { rec.random_node(r) };
+                            let p: Vec<Node> = (0..lp).map(|_| pick(&mut r)).collect();
+                            let q: Vec<Node> = (0..lq).map(|_| pick(&mut r)).collect();
                             rec.rec_cl(["leq", "lt", "geq", "gt", "eq"][r.gen_range(0..5)], &p, &q)
                         }
                     }
@@ -369,11 +665,13 @@ pub fn exec(args: &[String]) -> Value {
     for line in text.lines().filter(|l| !l.trim().is_empty()) {
         let c: Value = serde_json::from_str(line).expect("json");
         let c = if c["k"] == "panic" { c["call"].clone() } else { c };
+        let fo = c["foreign"].as_str().unwrap_or("").to_string();
         let nd = |v: &Value| build_env(&rec.env, v, &rec.map);
+        let nd2 = |v: &Value, which: &str| if fo.contains(which) { build_env(&rec.env2, v, &rec.map) } else { build_env(&rec.env, v, &rec.map) };
         let nds = |v: &Value| -> Vec<Node> { v.as_array().expect("list").iter().map(|x| build_env(&rec.env, x, &rec.map)).collect() };
         match c["k"].as_str().unwrap_or("") {
             "bin" => {
-                let (a, b) = (nd(&c["a"]), nd(&c["b"]));
+                let (a, b) = (nd2(&c["a"], "a"), nd2(&c["b"], "b"));
                 rec.rec_bin(c["op"].as_str().expect("op"), &a, &b)
             }
             "not" => {
@@ -381,7 +679,7 @@ pub fn exec(args: &[String]) -> Value {
                 rec.rec_not(&a)
             }
             "ite" => {
-                let (a, b, cc) = (nd(&c["a"]), nd(&c["b"]), nd(&c["c"]));
+                let (a, b, cc) = (nd(&c["a"]), nd2(&c["b"], "b"), nd2(&c["c"], "c"));
                 rec.rec_ite(&a, &b, &cc)
             }
             k @ ("exists" | "all") => {
